@@ -4,6 +4,7 @@ package main
 
 import (
 	"bytes"
+	"encoding/hex"
 	"fmt"
 	"net/url"
 	"strings"
@@ -853,4 +854,131 @@ func c09GridQuery(r *Rng, sampleTypes []string) string {
 		parts = append(parts, "f=.")
 	}
 	return strings.Join(parts, "&")
+}
+
+// ---------------------------------------------------------------------------------------------
+// remote sources: fault injection on the path that saves a local copy of a fetched profile
+// ---------------------------------------------------------------------------------------------
+
+// c09BadSaveNames edits the strings the driver builds the saved copy's file name from
+// ("pprof.<base of first mapping's file>.<sample types…>") so that creating it can fail: path
+// separators, NUL, over-long names, dots. Returns a description.
+func c09BadSaveNames(r *Rng, p *profile.Profile) string {
+	if r.Chance(40) {
+		return "plain-names"
+	}
+	bad := []string{"cpu/ticks", "a\x00b", strings.Repeat("L", 300), "..", "/", "a/../b", "con:", "\xff\xfe", " ", "*", strings.Repeat("é", 140), "x\ny"}
+	what := ""
+	if len(p.SampleType) > 0 && r.Chance(75) {
+		st := p.SampleType[r.Intn(len(p.SampleType))]
+		st.Type = bad[r.Intn(len(bad))]
+		what += fmt.Sprintf("sample-type=%.20q", st.Type)
+	}
+	if len(p.Mapping) > 0 && r.Chance(40) {
+		p.Mapping[0].File = r.Pick([]string{"/bin/" + strings.Repeat("m", 300), "/bin/a\x00b", "/bin/..", "/", "dir/", "/bin/x y"})
+		what += fmt.Sprintf(" mapping-file=%.20q", p.Mapping[0].File)
+	}
+	return strings.TrimSpace(what)
+}
+
+// c09SaveFaultEnv draws an environment in which the directory for saved profiles is unusable or
+// unwritable: PPROF_TMPDIR naming a file, a directory below a file, a missing directory, a
+// directory in which files cannot be created (/proc), $HOME empty or a file, TMPDIR a file.
+func c09SaveFaultEnv(r *Rng, e *c09Env) []string {
+	file := e.tmp + "/afile"
+	switch r.Intn(9) {
+	case 0:
+		return []string{"PPROF_TMPDIR=" + file}
+	case 1:
+		return []string{"PPROF_TMPDIR=" + file + "/sub"}
+	case 2:
+		return []string{"PPROF_TMPDIR=/proc"}
+	case 3:
+		return []string{"PPROF_TMPDIR=/proc/self/nosuch/dir"}
+	case 4:
+		return []string{"PPROF_TMPDIR=", "HOME="}
+	case 5:
+		return []string{"PPROF_TMPDIR=", "HOME=" + file}
+	case 6:
+		return []string{"PPROF_TMPDIR=" + file, "HOME=" + file, "TMPDIR=" + file}
+	case 7:
+		return []string{"PPROF_TMPDIR=" + e.tmp + "/ptmp/new/deep/dir"}
+	}
+	return nil
+}
+
+// ---------------------------------------------------------------------------------------------
+// deterministic grid: output command x graph-construction / trimming option
+// ---------------------------------------------------------------------------------------------
+
+// c09GridProfile: functions with more than one calling context, recursion, an inlined frame, a
+// negative sample, labels, and a skewed weight distribution, so that nodecount / nodefraction
+// settings really drop nodes and edges.
+func c09GridProfile() *profile.Profile {
+	m := &profile.Mapping{ID: 1, Start: 0x1000, Limit: 0x9000, File: "/bin/gridprog", BuildID: "abcdef12", HasFunctions: true, HasFilenames: true, HasLineNumbers: true}
+	names := []string{"main", "a", "b", "c", "d", "e", "f", "g", "inl"}
+	fn := map[string]*profile.Function{}
+	loc := map[string]*profile.Location{}
+	var fns []*profile.Function
+	var locs []*profile.Location
+	for i, n := range names {
+		f := &profile.Function{ID: uint64(i + 1), Name: n, SystemName: n, Filename: n + ".go", StartLine: int64(10 * i)}
+		l := &profile.Location{ID: uint64(i + 1), Mapping: m, Address: uint64(0x1100 + 32*i), Line: []profile.Line{{Function: f, Line: int64(10*i + 3)}}}
+		fn[n], loc[n] = f, l
+		fns, locs = append(fns, f), append(locs, l)
+	}
+	loc["d"].Line = append([]profile.Line{{Function: fn["inl"], Line: 85}}, loc["d"].Line...) // inl inlined into d
+	st := func(v1, v2 int64, lbl string, frames ...string) *profile.Sample {
+		s := &profile.Sample{Value: []int64{v1, v2}}
+		for _, f := range frames {
+			s.Location = append(s.Location, loc[f])
+		}
+		if lbl != "" {
+			s.Label = map[string][]string{"k": {lbl}}
+			s.NumLabel = map[string][]int64{"bytes": {v2}}
+			s.NumUnit = map[string][]string{"bytes": {"bytes"}}
+		}
+		return s
+	}
+	return &profile.Profile{
+		SampleType: []*profile.ValueType{{Type: "samples", Unit: "count"}, {Type: "cpu", Unit: "nanoseconds"}},
+		PeriodType: &profile.ValueType{Type: "cpu", Unit: "nanoseconds"}, Period: 1,
+		Mapping: []*profile.Mapping{m}, Function: fns, Location: locs,
+		Sample: []*profile.Sample{
+			st(50, 5000, "v", "c", "a", "main"), st(40, 4000, "w", "c", "b", "main"), st(5, 500, "", "d", "c", "a", "main"),
+			st(4, 400, "", "d", "c", "b", "main"), st(1, 100, "v", "e", "b", "main"), st(1, 100, "", "f", "a", "main"),
+			st(3, 300, "", "c", "c", "a", "main"), st(2, 200, "", "main"), st(-3, -300, "w", "g", "main"), st(1, 1, "", "e", "d", "c", "a", "main"),
+		},
+	}
+}
+
+// c09GridCases: every output command crossed with every option that changes how the graph is built
+// or trimmed (alone, and together with call_tree), under two trimming settings that drop nodes.
+func c09GridCases() []*c09Case {
+	pb := c09ProfileBytes(c09GridProfile())
+	if pb == nil {
+		return nil
+	}
+	ph := hex.EncodeToString(pb)
+	cmds := []string{"-top", "-text", "-tree", "-peek=.", "-traces", "-dot", "-callgrind", "-list=.", "-weblist=.", "-disasm=.", "-tags", "-raw", "-proto", "-topproto", "-svg", "-comments"}
+	opts := [][]string{{}, {"-call_tree"}, {"-cum"}, {"-flat"}, {"-noinlines"}, {"-trim=false"}, {"-compact_labels"}, {"-relative_percentages"}, {"-showcolumns"}, {"-mean"},
+		{"-drop_negative"}, {"-hide=c"}, {"-show=c|main"}, {"-focus=c"}, {"-ignore=d"}, {"-show_from=a"}, {"-prune_from=c"}, {"-tagfocus=k=v"}, {"-tagignore=1:"},
+		{"-lines"}, {"-files"}, {"-addresses"}, {"-filefunctions"}, {"-sample_index=samples"}, {"-tagroot=k"}, {"-tagleaf=k"}, {"-divide_by=3"}, {"-unit=seconds"}}
+	trims := [][]string{{"-nodecount=2"}, {"-nodefraction=0.25", "-edgefraction=0.3"}}
+	var out []*c09Case
+	add := func(args []string) {
+		a := append(append([]string{}, args...), "-symbolize=none", "-output=grid.out")
+		out = append(out, &c09Case{Kind: "cli", Profile: ph, Args: hexAll(a), Text: fmt.Sprintf("grid: pprof %q <grid profile: diamond a/b->c, recursion, inlining, a negative sample>", a)})
+	}
+	for _, c := range cmds {
+		for _, o := range opts {
+			for ti, t := range trims {
+				add(append(append([]string{c}, o...), t...))
+				if ti == 0 && len(o) > 0 && o[0] != "-call_tree" { // together with call_tree
+					add(append(append([]string{c, "-call_tree"}, o...), t...))
+				}
+			}
+		}
+	}
+	return out
 }
